@@ -10,6 +10,7 @@
   shipped code did not check the length and could index out of range).
 -/
 import Dirk.Lemmas.DkgLife
+import Dirk.Props.KernelsEq
 
 namespace Dirk.Dkg
 
@@ -50,5 +51,12 @@ theorem C13_no_crash (t : Nat) (vlens : List Nat) (h : ∀ l ∈ vlens, fixedAcc
     out of range. -/
 theorem C13_legacy_counterexample : legacyAccepts true 3 2 true = true ∧ aggregationInRange 2 [2, 3] = false :=
   legacy_counterexample
+
+/-- **tie by translation.** What the contribution handler accepts (`fixedAccepts`: the contribution verifies, its
+    vector has exactly `threshold` entries, the sender is a listed participant) is the function translated on every
+    run from the acceptance conditions of `OnContribute` (services/process/standard/service.go). -/
+theorem C13_kernel_is_source (valid : Bool) (vlen threshold : Nat) (listed : Bool) :
+    fixedAccepts valid vlen threshold listed = Dirk.Gen.fixedAcceptsGen valid vlen threshold listed :=
+  Dirk.fixedAccepts_eq_gen valid vlen threshold listed
 
 end Dirk.Dkg
